@@ -22,7 +22,7 @@ InitFromIdx(i) ==
        /\ cons = [s \in 1..Len(G1) |-> [t \in 1..Len(G1[s].trole) |-> <<>>]]
        /\ R = [s \in 1..Len(G1) |->
                 [ops |-> [k \in 1..Len(G1[s].ops) |-> [ins |-> G1[s].ops[k].ins, outs |-> G1[s].ops[k].outs, orig |-> k-1, qk |-> "-"]],
-                 outs |-> G1[s].gouts, sigout |-> G1[s].gouts,
+                 outs |-> G1[s].gouts, sigout |-> SigOuts(G1[s]),
                  dt |-> [t \in 1..Len(G1[s].trole) |-> IF G1[s].trole[t] = "aux" THEN "i32" ELSE "f32"],
                  par |-> [t \in 1..Len(G1[s].trole) |-> NoPar],
                  nm |-> [t \in 1..Len(G1[s].trole) |-> <<t-1>>],
